@@ -226,10 +226,25 @@ def _enclosing_type_guard(body, site, value_names, field_type_ok):
     return False
 
 
+def _slot_index_expr(hb, node):
+    """the index expression `i` of the `values[i]` slot a slot-site node writes (directly or through a `&mut values[i]` local)"""
+    recv = node.get("recv") or node.get("l") or (node.get("args") or [{}])[0]
+    ix = [i for i in exprs(recv, "Index")]
+    if ix:
+        return ix[0]["idx"]
+    nm = local_name(strip(recv))
+    if nm:
+        ini = let_init(hb["body"], nm)
+        if ini is not None:
+            ix = [i for i in exprs(ini, "Index")]
+            if ix:
+                return ix[0]["idx"]
+    return None
+
+
 def rule_setguard(E, R):
     rule = "R08-setguard"
     setters = {CTX + "::set_field_value": True, CTX + "::set_field_value_from_name": False}
-    # all slot mutations of the crate, wherever they live (helpers included)
     holders = {}
     for hb in E.hir_list:
         if "body" not in hb:
@@ -240,94 +255,85 @@ def rule_setguard(E, R):
         ss = _slot_sites(hb)
         if ss:
             holders[fn] = (hb, ss)
+    covered = set()
     n_store = 0
-    store_fns = set()
-    for fn, (hb, ss) in sorted(holders.items()):
-        body = hb["body"]
-        params = pat_bindings({"k": "x", "params": hb.get("params", [])})
-        type_params = [p for p in hb.get("params", []) if norm(p.get("ty", "")) == "types::Type"]
-        type_param_names = {p.get("name") for p in type_params}
-
-        def field_type_ok(e):
-            return _derives_get_type(body, e, {"field"}) or (local_name(e) in type_param_names)
-        for kind, node, val in ss:
-            where = node.get("sp", "")
-            if kind == "store":
-                n_store += 1
-                store_fns.add(fn)
-                vnames = {local_name(v) for v in exprs(val, "Path")} if val is not None else set()
-                vnames.discard(None)
-                ok = bool(vnames) and _enclosing_type_guard(body, node, vnames, field_type_ok)
-                R.check(ok, rule, fn, "a value is stored only under `field type == value.get_type()` on that value",
-                        "a weaker or missing test lets an ill-typed value into the context", where)
-            else:
-                # emptying a slot: only under the same successful test (so a failed set changes nothing)
-                guarded = False
-                for n, st in walk_arms(body):
-                    if n is node:
-                        for ent in st:
-                            if ent[0] == "if" and ent[2] is True:
-                                iff = [i for i in exprs(body, "If") if id(i) == ent[1]]
-                                if iff and _type_eq_guard(iff[0]["cond"]):
-                                    guarded = True
-                R.check(guarded, rule, fn, "a slot is emptied only after the type check succeeded",
-                        "the previous value is taken out before (or regardless of) the type check: a rejected set erases the "
-                        "stored value instead of leaving the context unchanged", where)
-        # helper with a Type parameter: every caller passes the field's own type and index
-        if fn not in setters and type_param_names:
-            for hc in E.hir_list:
-                if "body" not in hc:
-                    continue
-                for c in calls(hc["body"], "^" + re.escape(fn) + "$"):
-                    args = call_args(c)
-                    passes_ft = any(_derives_get_type(hc["body"], a, {"field"}) for a in args)
-                    passes_idx = any(strip(a).get("m") == "index" and local_name(strip(a)["recv"]) == "field" for a in args)
-                    R.check(passes_ft and passes_idx, rule, norm(hc["path"]), "helper %s receives the field's own type and index" % last_seg(fn),
-                            where=c["sp"])
-    R.floor(rule, "guarded value stores", n_store, 1)
-    # each public setter reaches a store (own or through a helper it calls) and resolves the field in its own scheme
     for fn, with_scheme in setters.items():
         h = E.hir(fn)
         if not h:
             R.cannot(rule, fn, "anchor not found")
             continue
-        body = h["body"]
-        reach = fn in store_fns or any(list(calls(body, "^" + re.escape(f) + "$")) for f in store_fns)
-        R.check(reach, rule, fn, "the setter performs the (guarded) store", "no store reached from this setter", h["span"])
-        # index is the field's own
-        if fn in holders:
-            for kind, node, val in holders[fn][1]:
-                recv = node.get("recv") or node.get("l") or {}
-                ix = [i for i in exprs(recv, "Index")]
-                if ix:
-                    idx_ok = strip(ix[0]["idx"]).get("m") == "index" and local_name(strip(ix[0]["idx"])["recv"]) == "field"
-                    R.check(idx_ok, rule, fn, "the slot written is the field's own index", where=node.get("sp", ""))
-                if kind == "store" and node.get("k") == "MethodCall" and node["m"] == "replace":
-                    ok_ret = any(norm(ok.get("callee", "")) == "core::result::Result::Ok" and strip(ok["args"][0]) is node for ok in exprs(body, "Call"))
-                    R.check(ok_ret, rule, fn, "returns the previously stored value (the result of replace)", where=node.get("sp", ""))
-        if with_scheme:
-            first_store = None
-            stmts = body.get("stmts", [])
-            guard_i = None
-            for i, st in enumerate(stmts):
-                for iff in exprs(st, "If", into_closures=False):
-                    c = strip(iff["cond"])
-                    if c.get("k") == "Binary" and c["op"] == "Ne" and "scheme::Scheme" in norm(c["l"].get("ty", "")) and explicit_err_returns(iff["then"]):
-                        sides = [strip(c["l"]), strip(c["r"])]
-                        own = any(s_.get("k") == "Field" and s_.get("name") == "scheme" and local_name(s_["e"]) == "self" for s_ in sides)
-                        fld = any(any(m["m"] == "scheme" and local_name(m["recv"]) == "field" for m in exprs(s_, "MethodCall")) for s_ in sides)
-                        if own and fld and guard_i is None:
-                            guard_i = i
-            # nothing that can write happens before the scheme test
-            early = []
-            for st in stmts[:guard_i if guard_i is not None else 0]:
-                early += [c for c in exprs(st, ("MethodCall", "Call")) if c.get("m") in ("replace", "take", "insert") or
-                          any(norm(c.get("callee", "")) == f for f in store_fns)]
-            R.check(guard_i is not None and not early, rule, fn, "a field of another scheme is rejected before anything is written", where=h["span"])
-        else:
-            gf = list(calls(body, r"scheme::Scheme::get_field$"))
-            ok = len(gf) == 1 and root_is_field(gf[0]["recv"], "self", "scheme") and local_name(gf[0]["args"][0]) == "name"
-            R.check(ok, rule, fn, "the field is resolved in the context's own scheme", where=h["span"])
+        S = sem.Sem(E, h)
+        S.sites()
+        mine = {fn} | {p_ for p_, _ in S.inlined}
+        covered |= mine
+        found_store = False
+        for hf in sorted(mine):
+            if hf not in holders:
+                continue
+            hb, ss = holders[hf]
+            for kind, node, val in ss:
+                for x in [y for y in S.sites() if y.node is node]:
+                    where = node.get("sp", "")
+                    idx = _slot_index_expr(hb, node)
+                    frecv = None
+                    if idx is not None:
+                        rv_ = S.resolve(idx, x.frame)
+                        frecv = sem.is_method(rv_.node, "index")
+                        ix_frame = rv_.frame
+                    idx_ok = frecv is not None and re.search(r"scheme::(FieldRef|Field)$", norm(sem.peel(frecv).get("ty", "")).replace("&", ""))
+                    R.check(bool(idx_ok), rule, fn, "the slot written is the field's own index", where=where)
+                    if not idx_ok:
+                        continue
+
+                    def gt_of(n_, fr_, what, wf):
+                        r_ = sem.is_method(S.resolve(n_, fr_).node, "get_type")
+                        return r_ is not None and S.same(r_, S.resolve(n_, fr_).frame, what, wf)
+                    typed = False
+                    for op, l, r, fr, certain in sem.weak_cmps(x.pc):
+                        if not certain or op != "Eq":
+                            continue
+                        for a_, b_ in ((l, r), (r, l)):
+                            if gt_of(a_, fr, frecv, ix_frame) and (kind != "store" or val is None or gt_of(b_, fr, val, x.frame)):
+                                typed = True
+                    if kind == "store":
+                        n_store += 1
+                        found_store = True
+                        R.check(typed, rule, fn, "a value is stored only under `field type == value.get_type()` on that value",
+                                "a weaker or missing test lets an ill-typed value into the context", where)
+                        if node.get("k") == "MethodCall" and node["m"] == "replace" and hf == fn:
+                            ok_ret = any(norm(l_.node.get("callee", "")) == "core::result::Result::Ok" and strip(l_.node["args"][0]) is node
+                                         for l_ in S.result_leaves() if l_.node.get("k") == "Call")
+                            R.check(ok_ret, rule, fn, "returns the previously stored value (the result of replace)", where=where)
+                    else:
+                        R.check(typed, rule, fn, "a slot is emptied only after the type check succeeded",
+                                "the previous value is taken out before (or regardless of) the type check: a rejected set erases the "
+                                "stored value instead of leaving the context unchanged", where)
+                    if with_scheme:
+                        same_scheme = False
+                        for op, l, r, fr, certain in sem.weak_cmps(x.pc):
+                            if not certain or op != "Eq":
+                                continue
+                            for a_, b_ in ((l, r), (r, l)):
+                                an = strip(S.resolve(a_, fr).node)
+                                own = an.get("k") == "Field" and an.get("name") == "scheme" and sem.param_index(S, an["e"], fr) == 0
+                                sr = sem.is_method(S.resolve(b_, fr).node, "scheme")
+                                if own and sr is not None and S.same(sr, fr, frecv, ix_frame):
+                                    same_scheme = True
+                        R.check(same_scheme, rule, fn, "a field of another scheme is rejected before anything is written", where=where)
+                    else:
+                        _, ch_ = chain(S.resolve(frecv, ix_frame).node)
+                        gf = ch_[0] if ch_ and all(c_["m"] in ("map_err", "ok_or", "ok_or_else") for c_ in ch_[1:]) else {}
+                        ok = gf.get("k") == "MethodCall" and norm(gf.get("callee", "")) == "scheme::Scheme::get_field" and \
+                            strip(gf["recv"]).get("k") == "Field" and strip(gf["recv"]).get("name") == "scheme" and \
+                            sem.param_index(S, strip(gf["recv"])["e"], S.root) == 0 and sem.param_index(S, gf["args"][0], S.root) == 1
+                        R.check(ok, rule, fn, "the field is resolved in the context's own scheme", where=where)
+        R.check(found_store, rule, fn, "the setter performs the (guarded) store", "no store reached from this setter", h["span"])
+    for fn in sorted(set(holders) - covered):
+        for kind, node, val in holders[fn][1]:
+            R.violation(rule, fn, "context slot written outside the setters",
+                        "a slot of ExecutionContext.values is written by a function that is neither a setter nor a private helper inlined "
+                        "into one: the type and scheme checks of the setters do not cover it", node.get("sp", ""))
+    R.floor(rule, "guarded value stores", n_store, 1)
     for adt in ("types::Type", "types::CompoundType", "types::PrimitiveType"):
         der = [i for i in E.impls if i.get("self_adt") == adt and i.get("trait") == "core::cmp::PartialEq"]
         R.check(len(der) == 1 and der[0]["derived"], rule, adt, "PartialEq is derived (compares the full nested type)",
@@ -341,26 +347,24 @@ def rule_execguard(E, R):
         if not h:
             R.cannot(rule, fn, "anchor not found")
             continue
-        ex = [c for c in exprs(h["body"], "MethodCall") if c["m"] == "execute" and root_is_field(c["recv"], "self", "root_expr")]
+        S = sem.Sem(E, h)
+        ex = [x for x in S.sites() if x.node.get("k") == "MethodCall" and x.node["m"] == "execute" and root_is_field(x.node["recv"], "self", "root_expr")]
         R.floor(rule, "root_expr.execute calls in " + fn, len(ex), 1)
-        for c in ex:
+        for x in ex:
             guarded = False
-            for n, st in walk_arms(h["body"]):
-                if n is c:
-                    for ent in st:
-                        if ent[0] == "if" and ent[2] is True:
-                            iff = [i for i in exprs(h["body"], "If") if id(i) == ent[1]][0]
-                            cd = strip(iff["cond"])
-                            if cd.get("k") == "Binary" and cd["op"] == "Eq":
-                                sides = [strip(cd["l"]), strip(cd["r"])]
-                                a = any(s.get("k") == "MethodCall" and s["m"] == "scheme" and local_name(s["recv"]) == "ctx" for s in sides)
-                                b = any(s.get("k") == "Field" and s.get("name") == "scheme" and local_name(s["e"]) == "self" for s in sides)
-                                guarded = a and b
-            R.check(guarded, rule, fn, "the compiled closure runs only under `ctx.scheme() == self.scheme`", where=c["sp"])
-        t = tail(h["body"])
-        if t.get("k") == "If":
-            e = tail(t.get("else", {}))
-            R.check(norm(e.get("callee", "")) == "core::result::Result::Err", rule, fn, "otherwise a scheme-mismatch error is returned", where=h["span"])
+            for op, l, r, fr, certain in sem.weak_cmps(x.pc):
+                if not certain or op != "Eq":
+                    continue
+                for a_, b_ in ((l, r), (r, l)):
+                    sr = sem.is_method(S.resolve(a_, fr).node, "scheme")
+                    bn = strip(S.resolve(b_, fr).node)
+                    if sr is not None and sem.param_index(S, sr, fr) == 1 and sem.param_index(S, x.node["args"][0], x.frame) == 1 and \
+                            bn.get("k") == "Field" and bn.get("name") == "scheme" and sem.param_index(S, bn["e"], fr) == 0:
+                        guarded = True
+            R.check(guarded, rule, fn, "the compiled closure runs only under `ctx.scheme() == self.scheme`", where=x.node["sp"])
+        errs = [x for x in S.result_leaves() if norm(x.node.get("callee", "")) == "core::result::Result::Err" or
+                (def_path(x.node) or "").endswith("Result::Err")]
+        R.check(len(errs) >= 1, rule, fn, "otherwise a scheme-mismatch error is returned", where=h["span"])
 
 
 def rule_schemeeq(E, R, rule="R08-schemeeq"):
@@ -370,7 +374,7 @@ def rule_schemeeq(E, R, rule="R08-schemeeq"):
         return R.cannot(rule, fn, "anchor not found")
     t = tail(h["body"])
     ok = t.get("k") == "Call" and norm(t.get("callee", "")) == "alloc::sync::Arc::ptr_eq" and \
-        root_is_field(t["args"][0], "self", "inner") and root_is_field(t["args"][1], "other", "inner")
+        root_is_field(t["args"][0], "self", "inner") and root_is_field(t["args"][1], param_name(h, 1), "inner")
     R.check(ok, rule, fn, "schemes are equal iff they share the same allocation (Arc::ptr_eq)",
             "structural equality would make two separately built, identical schemes interchangeable", h["span"])
     fh = "<scheme::Scheme as core::hash::Hash>::hash"
@@ -407,7 +411,7 @@ def _closure_or_fn_kind(arg):
     return "unknown" if d else "none"
 
 
-def explicit_type_check(iff):
+def explicit_type_check(iff, body=None):
     """`if val_type != elem_type {Err/return Err}` or `if !(a.get_type() == b) { panic }` (assert!)"""
     c = strip(iff["cond"])
     neg = False
@@ -419,8 +423,21 @@ def explicit_type_check(iff):
     tys = {norm(c["l"].get("ty", "")), norm(c["r"].get("ty", ""))}
     if not tys <= {"types::Type", "types::CompoundType"}:
         return False
-    mentions_val = any(local_name(p) in ("val_type", "value_type") for p in exprs(c, "Path"))
-    if not mentions_val:
+    # one side is the type of the element (derived from get_type()), the other the container's declared element type
+    def from_get_type(e):
+        if any(x["m"] == "get_type" for x in exprs(e, "MethodCall")):
+            return True
+        if body is not None:
+            for p in exprs(e, "Path"):
+                nm = local_name(p)
+                ini = let_init(body, nm) if nm else None
+                if ini is not None and any(x["m"] == "get_type" for x in exprs(ini, "MethodCall")):
+                    return True
+        return False
+    gl, gr = from_get_type(c["l"]), from_get_type(c["r"])
+    if body is not None and gl == gr:
+        return False
+    if body is None and gl and gr:
         return False
     mismatch_branch = iff["then"] if (c["op"] == "Ne") != neg else iff.get("else", {})
     if not mismatch_branch:
@@ -485,7 +502,7 @@ def rule_elems(E, R):
             # B guarded
             if verdict is None:
                 pre = preceding_stmts(body, c) or []
-                if any(explicit_type_check(i) for st in pre for i in exprs(st, "If", into_closures=False)):
+                if any(explicit_type_check(i, body) for st in pre for i in exprs(st, "If", into_closures=False)):
                     verdict = ("guarded", "preceded by a type comparison that rejects a mismatch")
                 elif c.get("k") == "MethodCall" and c["m"] == "collect":
                     root, ch = chain(c)
